@@ -375,8 +375,14 @@ func modeNoNilTop(m int) int { return m }
 
 // Cfg returns the configuration of the i-th case of a family: the first cases are the
 // deterministic shapes (all nil, all populated, all empty), the rest random.
+// allowBadUTF8: the configured decoder accepts text strings that are not valid UTF-8 (probed once
+// in main): Go strings are arbitrary bytes, so EVERY generated record may then carry such strings
+// and must read back byte for byte through every accessor. With a strict decoder the one dedicated
+// case of phase "utf8" reports the defect and the other phases stay on valid strings.
+var allowBadUTF8 bool
+
 func Cfg(i int, badUTF8 bool) *GenCfg {
-	c := &GenCfg{MaxLen: 4, BigLens: true, BadUTF8: badUTF8}
+	c := &GenCfg{MaxLen: 4, BigLens: true, BadUTF8: badUTF8 || allowBadUTF8}
 	switch i {
 	case 0:
 		c.Mode = 1
